@@ -138,7 +138,7 @@ def epoch_stop(ctx: Ctx, ml):
         impl = []
         for e in calls:
             v = cond.stop(1000 + e, e, None, None, 0.0)
-            impl.append((bool(v), cond.best_model - 1000))
+            impl.append((bool(v), None if cond.best_model is None else cond.best_model - 1000))
         mo = drv.call("c19.epoch", epochs=epochs, calls=calls)
         mod = list(zip(mo["verdicts"], mo["best_models"]))
         want = [(e >= epochs, e) for e in calls]
